@@ -56,7 +56,7 @@ HoleIp(t, b) ==
     [] t = 12 -> Br(<<73, b, 118, 54, COLON, COLON, COLON, 49>>)
     [] t = 13 -> Br(TagIPv6 \o <<49, 49, 49, b, COLON, COLON>>)
     [] t = 14 -> Br(TagIPv6 \o <<49, COLON, COLON, 49, b>>)
-    [] t = 15 -> <<b>> \o Br(v4a)
+    [] t = 15 -> Br(v4a) \o <<b>>                  \* every byte after the closing bracket
     [] t = 16 -> Br(TagIPv6 \o <<102, 102, 102, 102, COLON, COLON, 49, 57, 50, DOT, 48, DOT, 50, DOT, 49, 50, b>>)
 FamByteIp == { HoleIp(t, b) : t \in 1..16, b \in 1..255 }
 \* group / octet spellings away from the obvious boundaries, in the first, a middle and the last position
@@ -71,7 +71,24 @@ FamSpell == UNION { { Br(TagIPv6 \o g \o <<COLON>> \o G7), Br(TagIPv6 \o G7 \o <
                                                            o3 \in {<<57, 57>>, <<49, 57, 57>>}, o4 \in {<<48>>, <<50, 53, 53>>, <<50, 54, 48>>, <<51, 48, 48>>} }
             \cup { Br(TagIPv6 \o <<COLON, COLON>> \o JoinWith(<<o1, o2, <<49>>, o4>>, DOT)) : o1 \in {<<49>>, <<50, 53, 53>>, <<48>>}, o2 \in {<<48>>, <<50, 53, 54>>},
                                                            o4 \in {<<48>>, <<50, 53, 53>>, <<50, 53, 54>>} }
-Family == FamOctet \cup FamV6 \cup FamSfx \cup FamByteIp \cup FamSpell
+\* octets written with many digits (values far beyond 255, around 2^32 and 2^64) in every position
+BigOct == { <<52,50,57,52,57,54,55,50,57,55>>, <<52,50,57,52,57,54,55,50,57,54>>, <<52,50,57,52,57,54,55,53,53,49>>, <<52,50,57,52,57,54,55,53,53,50>>,
+            <<57,57,57,57,57,57,57,57,57,57,57>>, <<49,56,52,52,54,55,52,52,48,55,51,55,48,57,53,53,49,54,49,55>>, <<50,53,54>>, <<54,53,53,51,55>>,
+            <<48,48,48,48,48,48,48,48,48,49>>, <<49,48,48,48>>, <<50,49,52,55,52,56,51,54,52,57>>, <<56,53,56,57,57,51,52,53,57,51>> }
+FamBig == UNION { { Br(JoinWith(<<g, <<50>>, <<51>>, <<52>>>>, DOT)), Br(JoinWith(<<<<49>>, g, <<51>>, <<52>>>>, DOT)), Br(JoinWith(<<<<49>>, <<50>>, g, <<52>>>>, DOT)),
+                    Br(JoinWith(<<<<49>>, <<50>>, <<51>>, g>>, DOT)), Br(TagIPv6 \o <<COLON, COLON>> \o JoinWith(<<<<49>>, <<50>>, <<51>>, g>>, DOT)),
+                    Br(TagIPv6 \o <<COLON, COLON>> \o JoinWith(<<<<49>>, g, <<51>>, <<52>>>>, DOT)) } : g \in BigOct }
+\* every RFC 5321 form at maximal width: groups ffff, tail 255.255.255.255 (longest literals), a groups before / b after "::"
+F4 == <<102, 102, 102, 102>>
+T255 == <<50,53,53,DOT,50,53,53,DOT,50,53,53,DOT,50,53,53>>
+GroupsF(n) == JoinWith([i \in 1..n |-> F4], COLON)
+ShapeMax(a, b, dc, tail) ==
+  (IF a > 0 THEN GroupsF(a) ELSE <<>>) \o
+  (IF dc THEN <<COLON, COLON>> ELSE IF a > 0 /\ (b > 0 \/ tail) THEN <<COLON>> ELSE <<>>) \o
+  (IF b > 0 THEN GroupsF(b) ELSE <<>>) \o
+  (IF tail THEN (IF b > 0 THEN <<COLON>> ELSE <<>>) \o T255 ELSE <<>>)
+FamMax == { Br(t \o ShapeMax(a, b, dc, tail)) : t \in {TagIPv6, <<>>}, a \in 0..8, b \in 0..8, dc \in BOOLEAN, tail \in BOOLEAN }
+Family == FamOctet \cup FamV6 \cup FamSfx \cup FamByteIp \cup FamSpell \cup FamBig \cup FamMax
 
 D == Br(c)
 \* families are spread over 64 buckets (k = -1: bucket chosen) so that all workers share the evaluation
